@@ -111,6 +111,9 @@ def _persist_params(thorough):
             for tau in ((0.5, 5.0, 1000.0) if thorough else (0.5, 1000.0)):
                 for cap in ("none", "tight", "loose"):
                     out.append({"n": n, "dens": dens, "tau": tau, "cap": cap})
+                    if n >= 2 and cap != "loose":
+                        # the same species listed with DEscending time constants (the order is the user's choice)
+                        out.append({"n": n, "dens": dens, "tau": tau, "cap": cap, "order": "desc"})
     return out
 
 
@@ -150,6 +153,14 @@ def enumerate_cases(tier, seed):
                     for via in ("argument", "characteristics"):
                         cases.append({"fam": "conversion", "shape": list(shape), "pattern": pat, "qe": qe,
                                       "sampling": sampling, "via": via})
+    # photo-conversion of multi-wavelength photons (integrated over the wavelength axis first): regular / irregular grids
+    for shape in SHAPES:
+        for grid in ("regular", "irregular", "single2"):
+            for qe in (0.0, 0.3, 1.0):
+                for sampling in (False, True):
+                    for pat in ("uniform", "ramp", "hot"):
+                        cases.append({"fam": "conversion3d", "shape": list(shape), "grid": grid, "qe": qe,
+                                      "sampling": sampling, "pattern": pat})
     # photo-conversion with a per-pixel efficiency map placed at an offset (row offset != column offset included)
     for shape in SHAPES:
         for mshape in ("same", "larger", "smaller"):
@@ -367,6 +378,46 @@ def run_conversion(case, res):
     res.nontrivial = bool(photons.any())
 
 
+WL_GRIDS = {"regular": [400.0, 450.0, 500.0, 550.0], "irregular": [400.0, 405.0, 410.0, 420.0, 500.0, 600.0],
+            "single2": [500.0, 510.0]}
+
+
+def run_conversion3d(case, res):
+    """simple_conversion on (wavelength, y, x) photons: the incident photons per pixel are the integral of the spectral
+    photon density over the wavelength coordinate (trapezoidal rule on the ACTUAL coordinate values)"""
+    import xarray as xr
+
+    from pyxel.models.charge_generation import simple_conversion
+
+    shape = tuple(case["shape"])
+    wl = np.array(WL_GRIDS[case["grid"]])
+    base = frame(case["pattern"], shape)
+    cube = np.stack([base * (1.0 + 0.25 * k) / 64.0 for k in range(len(wl))])
+    det = mk.detector("ccd", *shape, char_kw={"quantum_efficiency": 0.123})
+    det.photon.array_3d = xr.DataArray(cube, dims=["wavelength", "y", "x"], coords={"wavelength": wl})
+    trapz = getattr(np, "trapezoid", None) or np.trapz
+    incident = trapz(cube, x=wl, axis=0)
+    key = {"sampling": case["sampling"], "grid": case["grid"]}
+    try:
+        simple_conversion(det, quantum_efficiency=case["qe"], binomial_sampling=case["sampling"], seed=1 + _seed())
+        res.n += 1
+        charge = np.array(det.charge.array, dtype=float)
+    except Exception as e:  # noqa: BLE001
+        res.bad(dict(key, code="raised"), f"raised {type(e).__name__}: {str(e)[:200]}")
+        return
+    if charge.shape != incident.shape:
+        res.bad(dict(key, code="shape"), f"charge shape {charge.shape}")
+        return
+    if (charge < 0).any() or (charge > incident * (1 + 1e-12) + 1e-9).any() or np.isnan(charge).any():
+        res.bad(dict(key, code="out-of-bounds"), f"charge {charge.tolist()} not within [0, incident photons {incident.tolist()}] "
+                f"(wavelengths {wl.tolist()})")
+    if not case["sampling"] and not _close(charge, incident * case["qe"], 1e-12):
+        res.bad(dict(key, code="expectation"), f"charge {charge.tolist()} != QE {case['qe']} x incident photons "
+                f"{incident.tolist()} (wavelengths {wl.tolist()})")
+    res.sigs.append(_sig(charge) if not case["sampling"] else [case["grid"], case["qe"]])
+    res.nontrivial = bool(base.any())
+
+
 def run_qemap(case, res):
     """conversion_with_qe_map: the map is placed like any input image (offset = position of the map's first pixel on the
     detector, zero efficiency where the map does not reach); per pixel 0 <= charge <= photons, = efficiency x photons
@@ -529,6 +580,8 @@ def _persistence_lists(case):
     taus = [case["tau"] * 10.0 ** i for i in range(n)]
     dens = [case["dens"] / (i + 1) for i in range(n)]
     caps = {"none": None, "tight": [1.0 + 0.5 * i for i in range(n)], "loose": [1.0e6] * n}[case["cap"]]
+    if case.get("order") == "desc":
+        taus, dens, caps = taus[::-1], dens[::-1], (caps[::-1] if caps else caps)
     return taus, dens, caps
 
 
@@ -605,7 +658,7 @@ def run_persistence(case, res):
             shutil.rmtree(tmp, ignore_errors=True)
 
 
-RUNNERS = {"collection": run_collection, "conversion": run_conversion, "qemap": run_qemap, "full_well": run_full_well, "ipc": run_ipc,
+RUNNERS = {"collection": run_collection, "conversion": run_conversion, "qemap": run_qemap, "conversion3d": run_conversion3d, "full_well": run_full_well, "ipc": run_ipc,
            "cdm": run_cdm, "simple_persistence": run_persistence, "persistence": run_persistence}
 
 
